@@ -1,5 +1,5 @@
 (* Lemmas about the roster primitives of model/Ownership.v. *)
-From Verif Require Import Common Ownership.
+From Verif Require Import Gen_CleanupAtomic Common Ownership.
 Open Scope N_scope.
 
 Lemma tid_eqb_eq a b : tid_eqb a b = true <-> a = b.
@@ -404,4 +404,26 @@ Lemma refuse_spec ids r t' :
 Proof.
   unfold refuse_tasks. intro H. apply in_map_iff in H. destruct H as [t [Et Ht]].
   exists t. split; [exact Ht|]. destruct (mem_tid (t_id t) ids && N.eqb (t_kill t) 0); [right|left]; symmetry; exact Et.
+Qed.
+
+(* ---------------- stale_cleanup / relock_task ---------------- *)
+(* the source fact (gen/Gen_CleanupAtomic.v): Cleanup does not wait between listing and killing *)
+Lemma cleanup_is_atomic : cleanup_no_block = true.
+Proof. vm_compute. reflexivity. Qed.
+
+Lemma stale_cleanup_is_kill ids r : stale_cleanup ids r = kill_tasks ids r.
+Proof. unfold stale_cleanup. rewrite cleanup_is_atomic. reflexivity. Qed.
+
+Lemma relock_ids id r : map t_id (relock_task id r) = map t_id r.
+Proof.
+  unfold relock_task. rewrite map_map. apply map_ext. intro t.
+  destruct (tid_eqb (t_id t) id && negb (t_idok t)); reflexivity.
+Qed.
+
+Lemma relock_spec id r t' :
+  In t' (relock_task id r) ->
+  exists t, In t r /\ t_id t' = t_id t /\ t_owner t' = t_owner t.
+Proof.
+  unfold relock_task. intro H. apply in_map_iff in H. destruct H as [t [Et Ht]].
+  exists t. split; [exact Ht|]. destruct (tid_eqb (t_id t) id && negb (t_idok t)); subst t'; split; reflexivity.
 Qed.
